@@ -133,13 +133,14 @@ class Run:
         wall = time.time() - self.t0
         if write_evidence:
             self._write_evidence(stats, n, nd, viol, knownhit, broken, wall)
-        if broken:
-            for b in broken:
-                print("ANALYSIS-BROKEN: " + b)
-            return 2
+        for b in broken:
+            print("ANALYSIS-BROKEN: " + b)
         if viol:
+            # a concrete unmet obligation outranks the vacuity guard (instance floors / fixtures)
             print("VIOLATION property=%s replay=%s" % (self.prop, replay))
             return 1
+        if broken:
+            return 2
         print("OK property=%s obligations=%d discharged=%d known_findings=%d wall=%.1fs" % (
             self.prop, n, nd, len(knownhit), wall))
         return 0
